@@ -75,6 +75,9 @@ def gen_out(rng, prompt):
     out = b"".join(parts)
     if rng.random() < 0.6:
         out += b"\n"
+    # domain: the output must not contain the complete prompt
+    while prompt in out.replace(b"\n", b"\r\n"):
+        out = out.replace(prompt[-2:], b"_", 1)
     return out
 
 
